@@ -21,6 +21,8 @@ OVERRIDE = [None]
 
 
 UBMODE = [False]
+STRICTFP = [False]      # compile with -frounding-math: float steps stay explicit (constrained intrinsics), nothing is
+                        # folded under the assumption of the default floating-point environment
 
 
 def build_tus(cfgs, families, type_filter=None, header_extra=(), tier="quick"):
@@ -48,6 +50,9 @@ def build_tus(cfgs, families, type_filter=None, header_extra=(), tier="quick"):
                     # E4: no UB-exploiting pass has run (always_inline + sroa only)
                     tu = e3.TU(cfg, "%s.%s.ub" % (vt.name, fam), ops.header(vt, header_extra), ws,
                                opt=("-O1", "-Xclang", "-disable-llvm-passes"), post="always-inline,cgscc(inline),function(sroa),cgscc(inline),function(sroa)")
+                elif STRICTFP[0]:
+                    tu = e3.TU(cfg, "%s.%s.strictfp" % (vt.name, fam), ops.header(vt, header_extra), ws,
+                               opt=("-O2", "-frounding-math"))
                 else:
                     tu = e3.TU(cfg, "%s.%s" % (vt.name, fam), ops.header(vt, header_extra), ws)
                 tus.append((tu, cfg, vt, fam))
@@ -57,7 +62,8 @@ def build_tus(cfgs, families, type_filter=None, header_extra=(), tier="quick"):
         try:
             js, missing = tu.build()
             return {"cfg": cfg.name, "named": cfg.named, "type": vt.name, "fam": fam, "json": js,
-                    "missing": missing, "tier": tier, "prop": PROP[0], "override": OVERRIDE[0], "keytag": KEYTAG[0]}
+                    "missing": missing, "tier": tier, "prop": PROP[0], "override": OVERRIDE[0], "keytag": KEYTAG[0],
+                    "strictfp": STRICTFP[0]}
         except Broken as e:
             return {"cfg": cfg.name, "type": vt.name, "fam": fam, "broken": str(e)}
     return pmap(b, tus)
@@ -291,6 +297,8 @@ def analyse_job(job):
         if getattr(inst, "clause", None) and not job.get("override"):
             key["clause"] = inst.clause
         ks = json.dumps(key, sort_keys=True)
+        if job.get("strictfp"):
+            key["fpmodel"] = "rounding-math"
         if job.get("keytag") and "clause" not in key:
             key["clause"] = job["keytag"]       # (after ks: the missing-wrapper keys carry no tag)
         if ks not in miss and getattr(inst, "subst", None) is not None:
@@ -420,11 +428,12 @@ def analyse_job(job):
     return {"res": out, "unknown": unknown}
 
 
-def run_families(res, cfgs, families, type_filter=None, override=None, keytag=None, ubmode=False, tier=None):
+def run_families(res, cfgs, families, type_filter=None, override=None, keytag=None, ubmode=False, tier=None, strictfp=False):
     e3.ensure_tools()
     PROP[0] = res.prop
     OVERRIDE[0] = override
     UBMODE[0] = ubmode
+    STRICTFP[0] = strictfp
     KEYTAG[0] = keytag
     jobs = build_tus(cfgs, families, type_filter, tier=tier or res.tier)
     # identical IR across configurations is analysed once
@@ -444,4 +453,5 @@ def run_families(res, cfgs, families, type_filter=None, override=None, keytag=No
     res.extra["configurations"] = [c.name for c in cfgs]
     res.extra["translation_units"] = res.extra.get("translation_units", 0) + len(jobs)
     UBMODE[0] = False
+    STRICTFP[0] = False
     return jobs
